@@ -203,6 +203,7 @@ def mgr_conformance(args):
             L.append("rotate h%d" % k)
             M.append("r %d" % (k + 1))
             if unflushed[k]:
+                M.append("m")          # a successful rotate_memtable ends with JournalManager::maintenance
                 queue.append(k); unflushed[k] = 0
         elif c < 0.93:
             L.append("drain")
@@ -221,6 +222,7 @@ def mgr_conformance(args):
     for k in sorted(alive):
         L.append("rotate h%d" % k); M.append("r %d" % (k + 1))
         if unflushed[k]:
+            M.append("m")
             queue.append(k); unflushed[k] = 0
     L.append("drain")
     for q in queue:
